@@ -283,6 +283,8 @@ def option_kw(S, c):
     if c.get('recalc'):
         S['combi'].refinements_for_recalculate = c['recalc']
         kw['recalculate_frequently'] = True
+    if c.get('test_scheme'):
+        kw['test_scheme'] = True      # the library's own validity check of the final scheme (asserts coefficient sum 1 at every point)
     return kw
 
 
